@@ -418,3 +418,39 @@ Proof. split; vm_compute; reflexivity. Qed.
 (* the keep-alive frame of the Tail websocket is the Tail frame of no rows *)
 Example tail_keepalive_frame : render (enc_tail cur_hdr []) = "{""streams"":[]}".
 Proof. vm_compute. reflexivity. Qed.
+
+(* a response written by one json.Marshal: the bytes are the one document the value decodes to ... *)
+Theorem doc_wellformed_marshalled_value : forall v, nums_ok v = true ->
+  parse_bytes (render (tokensJ_of v)) = Some (sanitize_doc v).
+Proof. exact marshal_value_bytes. Qed.
+Print Assumptions doc_wellformed_marshalled_value.
+
+(* ... TempoController.TagsV2 and ValuesV2 (map[string]any with sorted keys, the collected slice nil = null when empty),
+   for every list of byte strings *)
+Theorem doc_wellformed_tempo_tags_v2 : forall xs,
+  parse_bytes (render (tokensJ_of (tagsv2_val xs))) = Some (sanitize_doc (tagsv2_val xs)) /\
+  parse_bytes (render (tokensJ_of (valuesv2_val xs))) = Some (sanitize_doc (valuesv2_val xs)).
+Proof. intros xs. split; [apply tagsv2_bytes|apply valuesv2_bytes]. Qed.
+Print Assumptions doc_wellformed_tempo_tags_v2.
+Example tags_v2_met :
+  render (tokensJ_of (tagsv2_val [])) = "{""scopes"":[{""name"":""unscoped"",""tags"":null}]}" /\
+  render (tokensJ_of (valuesv2_val ["a<"; String (chr 200) ""])) =
+  "{""tagValues"":[{""type"":""string"",""value"":""a\u003c""},{""type"":""string"",""value"":""\ufffd""}]}".
+Proof. split; vm_compute; reflexivity. Qed.
+
+(* Trace from the OTLP spans: unmarshal.SpanToJSONSpan is part of the model ([span_to_jspan]: hex ids, parentSpanId dropped when
+   empty or all zero, the last non-empty service.name, attribute values as text: %v of bool / int64 / float64, base64 of bytes);
+   for EVERY list of spans the body is one document *)
+Theorem doc_wellformed_trace_otlp : forall spans,
+  parse_bytes (render (enc_trace (map (fun o => jspan_val (span_to_jspan o)) spans))) =
+  Some (doc_trace_of (map sanitize_doc (map (fun o => jspan_val (span_to_jspan o)) spans))).
+Proof. intros spans. rewrite <- (map_map span_to_jspan jspan_val). exact (trace_spans_bytes (map span_to_jspan spans)). Qed.
+Print Assumptions doc_wellformed_trace_otlp.
+Example span_conversion_met :
+  let o := {| o_trace := String (chr 171) "A"; o_span := "z"; o_parent := String (chr 0) (String (chr 0) ""); o_name := "n";
+              o_start := 5%Z; o_end := 7%Z;
+              o_attrs := [("service.name", OStr "svc"); ("d", ODouble 4728779608739020800); ("y", OBytes "Ma"); ("b", OBool true)];
+              o_events := []; o_status := None |} in
+  render (tokensJ_of (jspan_val (span_to_jspan o))) =
+  "{""traceID"":""ab41"",""traceId"":""ab41"",""spanID"":""7a"",""spanId"":""7a"",""name"":""n"",""startTimeUnixNano"":5,""endTimeUnixNano"":7,""parentSpanId"":""0000"",""serviceName"":""svc"",""attributes"":[{""key"":""service.name"",""value"":{""stringValue"":""svc""}},{""key"":""d"",""value"":{""stringValue"":""1.34217728e+08""}},{""key"":""y"",""value"":{""stringValue"":""TWE=""}},{""key"":""b"",""value"":{""stringValue"":""true""}}],""events"":[]}".
+Proof. vm_compute. reflexivity. Qed.
